@@ -142,6 +142,7 @@ func (w *w4World) bump(key string) *w4Rec {
 
 type w4Cmd struct {
 	Seq, RetSeq, ReplySeq int64
+	DoneSeq               int64 // when the server finished handling the command (0: not yet)
 	ID                    uint32
 	Kind                  string // connect subscribe unsubscribe track untrack
 	Keys                  []string
@@ -168,6 +169,7 @@ type w4KeyState struct {
 	winClaim        uint64 // lowest version claimed by the in-flight track commands
 	npush           int
 	trackSendSeq    int64 // send seq of the latest successfully answered track
+	trackCmd        *w4Cmd // that command (its DoneSeq closes the window in which the server handled it)
 	trackReplySeq   int64
 	trackedAtSeq    int64 // seq since which the key is continuously tracked (client model)
 	trackedAt       time.Duration
@@ -513,6 +515,7 @@ func (cl *w4Conn) send2(kind string, build func(rec *w4Cmd) *protocol.Command) (
 	rec.RetSeq = w.next()
 	if !rec.Async {
 		rec.ServerDone = true
+		rec.DoneSeq = w.next()
 		cl.c05Completed(rec)
 	}
 	if !ok {
@@ -951,6 +954,7 @@ func w4ServerDone(c *Client, id uint32) {
 	if tr, ok := c.Transport().(*w4Transport); ok {
 		if rec := tr.cl.cmds[id]; rec != nil {
 			rec.ServerDone = true
+			rec.DoneSeq = tr.cl.w.next()
 			tr.cl.c05Completed(rec)
 		}
 	}
